@@ -3,6 +3,9 @@
 // A case = (helper name, arguments, what the implementation produced: results followed by the arguments
 // re-read after the call).  Every helper is registered in fns_*.go with: how to call the real exported
 // function, and a monitor restating its law by brute force (independent of the Coq model).
+// Slice arguments are Go objects, not only values: phys.go gives some of them capacity behind their length (sentinels),
+// compares the whole backing arrays after the call and compares slice results by address with the arrays handed in
+// (monitor classes input-mutated / result-aliases-input).
 package main
 
 import (
@@ -27,6 +30,10 @@ type Val struct {
 	M  [][2]int64   `json:"m,omitempty"`
 	MM [][][2]int64 `json:"mm,omitempty"`
 	E  string       `json:"e,omitempty"`
+	// shape of a slice argument as a Go object (not part of its value, invisible to the Coq model): the live slice is
+	// the prefix x[:len] of an array with X more slots holding sentinels; LL: X for the outer slice, XS[k] for element k
+	X  int   `json:"x,omitempty"`
+	XS []int `json:"xs,omitempty"`
 }
 
 func VZ(z int64) Val { return Val{T: "Z", Z: z} }
@@ -80,7 +87,7 @@ func (v Val) slice() []int64 { // nil for N
 	if v.T != "L" {
 		return nil
 	}
-	return append(make([]int64, 0, len(v.L)), v.L...)
+	return spare(v.L, v.X, sentinel)
 }
 func (v Val) amap() map[int64]int64 {
 	if v.T != "M" {
@@ -98,7 +105,7 @@ func (v Val) slices() [][]int64 {
 	}
 	r := make([][]int64, len(v.LL))
 	for i, x := range v.LL {
-		r[i] = append(make([]int64, 0, len(x)), x...)
+		r[i] = spare(x, xsAt(v.XS, i), sentinel)
 	}
 	return r
 }
@@ -234,15 +241,18 @@ func coqVals(vs []Val) string {
 
 // cx materialises the arguments of one call as live Go objects and re-reads them afterwards.
 type cx struct {
-	a    []Val
-	live []interface{}
+	a       []Val
+	live    []interface{}
+	blocks  []*block      // every backing array handed to the implementation (phys.go)
+	results []resSlice    // every slice the implementation returned
+	keep    []interface{} // keeps the results allocated
 }
 
 func newCx(a []Val) *cx { return &cx{a: a, live: make([]interface{}, len(a))} }
 
 func (c *cx) S(i int) []int64 {
 	if c.live[i] == nil {
-		c.live[i] = c.a[i].slice()
+		c.live[i] = c.matS(i)
 	}
 	return c.live[i].([]int64)
 }
@@ -254,25 +264,19 @@ func (c *cx) M(i int) map[int64]int64 {
 }
 func (c *cx) SS(i int) [][]int64 {
 	if c.live[i] == nil {
-		c.live[i] = c.a[i].slices()
+		c.live[i] = c.matSS(i)
 	}
 	return c.live[i].([][]int64)
 }
 func (c *cx) MM(i int) []map[int64]int64 {
 	if c.live[i] == nil {
-		c.live[i] = c.a[i].maps()
+		c.live[i] = c.matMM(i)
 	}
 	return c.live[i].([]map[int64]int64)
 }
 func (c *cx) Z(i int) int64 { return c.a[i].Z }
 func (c *cx) I(i int) int   { return int(c.a[i].Z) }
-func (c *cx) Ints(i int) []int {
-	r := make([]int, len(c.a[i].L))
-	for j, x := range c.a[i].L {
-		r[j] = int(x)
-	}
-	return r
-}
+func (c *cx) Ints(i int) []int { return c.matInts(i) }
 
 // after re-reads every materialised argument (same printing as the inputs: nil stays nil).
 func (c *cx) after() []Val {
@@ -315,6 +319,7 @@ type fnDef struct {
 	inplace bool                                      // rewrites its first argument by design
 	coq     func(a []Val) bool                        // false: monitor only (result not determined by the inputs)
 	oracle  bool                                      // the call rewrites trailing arguments with implementation outputs (checker / order)
+	alias   int                                       // what a slice result may have in common with argument #0 (phys.go: aliasNone/Self/Sub)
 }
 
 var fns []*fnDef
@@ -330,6 +335,12 @@ func (d *fnDef) ip() *fnDef                          { d.inplace = true; return 
 func (d *fnDef) onlyCoqIf(f func(a []Val) bool) *fnDef { d.coq = f; return d }
 func (d *fnDef) orc() *fnDef                         { d.oracle = true; return d }
 
+// returnsArg: by its code and its tests the helper hands back argument #0 itself when there is nothing to remove
+func (d *fnDef) returnsArg() *fnDef { d.alias = aliasSelf; return d }
+
+// subSlices: the results are sub-slices of argument #0 by design
+func (d *fnDef) subSlices() *fnDef { d.alias = aliasSub; return d }
+
 type Case struct {
 	Fn   string `json:"fn"`
 	Args []Val  `json:"args"`
@@ -337,7 +348,7 @@ type Case struct {
 }
 
 // execute runs the implementation on fresh copies of the arguments.
-func execute(d *fnDef, args []Val) (c Case, res, aft []Val, panicked bool) {
+func execute(d *fnDef, args []Val) (c Case, res, aft []Val, panicked bool, ph physObs) {
 	cc := newCx(append([]Val{}, args...))
 	func() {
 		defer func() {
@@ -349,11 +360,12 @@ func execute(d *fnDef, args []Val) (c Case, res, aft []Val, panicked bool) {
 		res = d.call(cc)
 	}()
 	aft = cc.after()
+	ph = cc.observe(d)
 	c = Case{Fn: d.name, Args: cc.a, Impl: append(append([]Val{}, res...), aft...)}
 	return
 }
 
-func monitor(d *fnDef, c *Case, res, aft []Val, panicked bool) (viol []vh.Violation) {
+func monitor(d *fnDef, c *Case, res, aft []Val, panicked bool, ph physObs) (viol []vh.Violation) {
 	add := func(class, detail string) {
 		if len(viol) < 3 {
 			viol = append(viol, vh.Violation{Kind: "coll:" + d.name + ":" + class,
@@ -365,13 +377,27 @@ func monitor(d *fnDef, c *Case, res, aft []Val, panicked bool) (viol []vh.Violat
 		return
 	}
 	// helpers that return new containers never modify their arguments
+	told := map[int]bool{}
 	for i := range c.Args {
 		if d.inplace && i == 0 {
 			continue
 		}
 		if !eqVal(c.Args[i], aft[i]) {
+			told[i] = true
 			add("input-mutated", fmt.Sprintf("argument #%d was %s, after the call it is %s", i, showVal(c.Args[i]), showVal(aft[i])))
 		}
+	}
+	// ... nor the rest of the arrays behind them: the slots between len and cap of every slice handed in (also of the
+	// in-place argument: compaction works inside len), and the slots inside len of the arguments not re-read above
+	for _, h := range ph.mutated {
+		if h.tail || !(told[h.arg] || (d.inplace && h.arg == 0)) {
+			add("input-mutated", h.detail)
+		}
+	}
+	// a slice result has no memory in common with an argument, unless the helper works in place / is declared to
+	// hand back (a part of) its first argument
+	for _, a := range ph.alias {
+		add("result-aliases-input", a)
 	}
 	if d.law != nil {
 		for _, h := range d.law(c.Args, res, aft) {
@@ -388,17 +414,30 @@ func showVal(v Val) string {
 	case "B":
 		return fmt.Sprint(v.B)
 	case "L":
-		return fmt.Sprint(v.L)
+		return fmt.Sprint(v.L) + showSpare(v.X)
 	case "N":
 		return "nil"
 	case "LL":
-		return fmt.Sprint(v.LL)
+		if len(v.XS) == 0 {
+			return fmt.Sprint(v.LL) + showSpare(v.X)
+		}
+		it := make([]string, len(v.LL))
+		for i, x := range v.LL {
+			it[i] = fmt.Sprint(x) + showSpare(xsAt(v.XS, i))
+		}
+		return "[" + strings.Join(it, " ") + "]" + showSpare(v.X)
 	case "M":
 		return "map" + fmt.Sprint(v.M)
 	case "MM":
-		return "maps" + fmt.Sprint(v.MM)
+		return "maps" + fmt.Sprint(v.MM) + showSpare(v.X)
 	}
 	return "panic(" + v.E + ")"
+}
+func showSpare(x int) string { // a slice with x slots of capacity behind its length
+	if x == 0 {
+		return ""
+	}
+	return fmt.Sprintf("+%dcap", x)
 }
 func showVals(vs []Val) string {
 	it := make([]string, len(vs))
@@ -499,15 +538,52 @@ var kindSeen = map[string]int{}
 
 // record runs one call on the implementation and its monitors.  Cases that the Coq model evaluates, and cases
 // with a monitor hit, are written out; the others (monitors only, nothing found) are only counted.
+//
+// Every call with a slice argument is made in two shapes: every slice with cap == len, and some slices as prefixes of
+// longer arrays (spareShape).  Which of the two is the one offered to the Coq model is drawn at random; the other one
+// is seen by the monitors only.  (The model works on values: both shapes give it the same term.)
 func record(d *fnDef, args []Val, coqWanted bool) {
-	c, res, aft, pan := execute(d, args)
+	if shaped(args) { // corpus: the shape is part of the witness
+		record1(d, args, coqWanted)
+		return
+	}
+	sp, ok := spareShape(args, shapeRNG)
+	switch {
+	case !ok:
+		record1(d, args, coqWanted)
+	case shapeRNG.Bool():
+		record1(d, sp, coqWanted)
+		record1(d, args, false)
+	default:
+		record1(d, args, coqWanted)
+		record1(d, sp, false)
+	}
+}
+
+var shapeRNG *vh.RNG
+
+func record1(d *fnDef, args []Val, coqWanted bool) {
+	c, res, aft, pan, ph := execute(d, args)
 	var v []vh.Violation
-	for _, h := range monitor(d, &c, res, aft, pan) {
+	for _, h := range monitor(d, &c, res, aft, pan, ph) {
 		kindSeen[h.Kind]++
 		if kindSeen[h.Kind] <= 3 {
 			v = append(v, h)
 		}
 	}
+	// input shapes and aliasing verdicts of ALL calls (also those seen by the monitors only)
+	switch {
+	case ph.sliceInputs == 0:
+		out.Count("slice_input_shape", "no-slice-argument")
+	case ph.spareInputs == 0:
+		out.Count("slice_input_shape", "every-slice-cap=len")
+	default:
+		out.Count("slice_input_shape", "some-slice-with-spare-capacity")
+		out.Count("spare_capacity_calls", d.name)
+		out.Count("spare_capacity_max_slots", vh.Bucket(ph.maxSpare))
+		out.Count("spare_capacity_slices_per_call", vh.Bucket(ph.spareInputs))
+	}
+	out.Count("slice_result_vs_inputs", ph.verdict)
 	coqWanted = coqWanted && (d.coq == nil || d.coq(c.Args))
 	if !coqWanted && len(v) == 0 {
 		out.Count("monitor_only_calls", d.name)
@@ -555,8 +631,8 @@ func main() {
 		if d.oracle { // trailing oracle arguments are recomputed by the call
 			args = append([]Val{}, c.Args...)
 		}
-		c2, res, aft, pan := execute(d, args)
-		v := monitor(d, &c2, res, aft, pan)
+		c2, res, aft, pan, ph := execute(d, args)
+		v := monitor(d, &c2, res, aft, pan, ph)
 		b, _ := json.Marshal(map[string]interface{}{"case": c2, "recorded_impl": c.Impl, "monitor": v})
 		fmt.Println(string(b))
 		if len(v) > 0 {
@@ -565,9 +641,12 @@ func main() {
 		return
 	}
 	outDir, outSeed = f.Out, f.Seed
+	shapeRNG = vh.NewRNG(f.Seed ^ 0x5a9e)
 	ruleText = "every helper on: corpus; all slices over {1,2,3} up to length 5 (quick) / 6 (thorough) and nil; pairs of such slices up to length 3 / 4; " +
 		"all maps over keys {1,2,3} x values {0,1,2} and nil, pairs of them; lists of up to 3 slices/maps; all dependency graphs on <= 2 / 3 items; " +
-		"random large, negative, all-equal and duplicate-heavy inputs; the monitors see every call, the Coq model a stratified sample of 70 (quick) / " +
+		"random large, negative, all-equal and duplicate-heavy inputs; every call with a slice argument is made twice: all slices with cap == len, and " +
+		"some of them as prefixes of longer arrays with sentinels behind len (slice_input_shape; the arrays are compared after the call, results " +
+		"are compared by address with the arrays handed in); the monitors see every call, the Coq model a stratified sample of 70 (quick) / " +
 		"2500 (thorough) calls per helper plus all random ones (calls seen by the monitors only are counted under monitor_only_calls); " +
 		"non-trivial = first container argument has >= 2 elements and (slices) a repeated element; distinct by hash of (helper, arguments, outputs)"
 	rotate()
